@@ -37,7 +37,7 @@ func (C17) Config() world.Config {
 	return world.Config{
 		Accounts: []string{"U1", "U2", "P1", "P2", "P3"},
 		Storage: func(p *storagetypes.Params) {
-			p.ChunkSize, p.ProofWindow, p.CheckWindow = 4, 3, 2
+			p.ChunkSize, p.ProofWindow, p.CheckWindow = 4, 2, 2
 			p.AttestFormSize, p.AttestMinToPass = 1, 1
 			p.CollateralPrice = 1000
 		},
@@ -52,7 +52,19 @@ func (C17) Init(env world.Env) mc.Model {
 	for _, u := range c17Owners {
 		mustOK(env.Deliver(storagetypes.NewMsgBuyStorage(w.A(u).Bech, w.A(u).Bech, 30, 1_000_000_000, "ujkl")), "BuyStorage")
 	}
-	return c17Model{}
+	// start from a non-initial state: a file with all three provers already listed (replication 3), so that reward
+	// blocks in which several provers lapse at once are within the depth bound
+	u := w.A("U1").Bech
+	f := c17Files["mB"]
+	h := env.Ctx().BlockHeight()
+	mustOK(env.Deliver(storagetypes.NewMsgPostFile(u, f.merkle, int64(len(f.data)), 0, 0, 3, "{}")), "seed file")
+	for _, p := range c17Provers {
+		item, hl := f.proofFor(0)
+		if ok, e := postProofOK(w, env.Deliver(storagetypes.NewMsgPostProof(w.A(p).Bech, f.merkle, u, h, item, hl, 0))); !ok {
+			panic(e)
+		}
+	}
+	return c17Model{Files: []string{"U1|mB|" + strconv.FormatInt(h, 10)}}
 }
 
 func (C17) Events(env world.Env, mm mc.Model) []string {
